@@ -240,6 +240,8 @@ static void * liberasurecode_rs_vand_init(struct ec_backend_args *args,
     desc->matrix = desc->make_systematic_matrix(desc->k, desc->m);
 
     if (NULL == desc->matrix) {
+        /* drop the reference on the shared GF tables taken just above */
+        desc->deinit_liberasurecode_rs_vand();
         goto error;
     }
 
